@@ -101,6 +101,11 @@ def cases(draw, name, tier):
         # ask again after the end: an exhausted iterator stays exhausted (and yields nothing new)
         outs = max(case["params"].get("n", 1), 1) if name == "tee" else 1
         case["plan"] = case["plan"] + [["repoll", draw(st.integers(0, outs - 1))] for _ in range(draw(st.integers(1, 3)))]
+    if case["plan"] and draw(st.integers(0, 3)) == 0:
+        # the consumer uses several loops over one iterator (header first, then the rest): aiter() changes nothing
+        outs = max(case["params"].get("n", 1), 1) if name == "tee" else 1
+        for _ in range(draw(st.integers(1, 2))):
+            case["plan"].insert(draw(st.integers(0, len(case["plan"]))), ["reiter", draw(st.integers(0, outs - 1))])
     case["keep"] = True  # signatures of everything yielded are taken again at the very end
     lists = [i for i, s in enumerate(case["srcs"]) if s["fl"] == "list" and s.get("alias") is None]
     if lists and case["plan"] and draw(st.integers(0, 3)) == 0:
